@@ -331,3 +331,71 @@ Print Assumptions C11_raw_reader_refines.
 Print Assumptions C11_raw_open.
 Print Assumptions C11_stack_refines.
 Print Assumptions C11_stack_open.
+
+(* ---------- work package fsstack: the compression reader with a STREAMING decompressor ----------
+   (CompLayerS.v: brotli::Decompressor<Take<R>> as written in brotli-decompressor — input buffer
+   of min(csize, BLOCK) bytes refilled by one inner read when the decoder asks for input
+   without output — around an abstract decoder step under the DecoderLaws).  Over an inner
+   stream behaving as a cursor over the wire it refines a cursor over the plaintext, exactly
+   as the whole-block model does: every theorem stated for "any stream refining a cursor"
+   transfers. *)
+From MLA Require Import CompFailSafe CompFailSafeProofs CompFailSafeToy CompLayerS CompLayerSProofs CompLayerSRefine CompLayerSToy.
+
+Theorem C11_comp_stream_reader_refines :
+  forall BLOCK LIMIT : N, 0 < BLOCK -> BLOCK < 2 ^ 32 ->
+  forall (dstate : Type) (dinit : dstate) (dstep : dstate -> bytes -> N -> dresult * N * bytes * dstate)
+         (D : bytes -> bytes) (fin : bytes -> bool),
+    DecoderLaws dinit dstep D fin -> NoNmiAtEnd dinit dstep fin ->
+  forall (S : Stream) (plain : bytes) (cbs : list (list N)),
+    (len cbs - 1) * BLOCK <= len plain <= len cbs * BLOCK ->
+    (* the block table is the decoder's: every block is a complete stream decoding to its slice *)
+    (forall (j : N) (cb : list N), nthN cbs j = Some cb -> fin cb = true /\ D cb = block_at BLOCK plain j) ->
+    12 + 4 * len cbs <= LIMIT /\ 12 + 4 * len cbs < 2 ^ 32 ->
+    len plain < 2 ^ 63 ->
+  forall Rin : st S -> N -> Prop,
+    Refines S (comp_wire cbs (len plain - (len cbs - 1) * BLOCK)) Rin ->
+    Refines (CompReaderS BLOCK dstate dinit dstep S) plain (RcompS BLOCK dstate dinit dstep fin S plain cbs Rin).
+Proof. exact comp_stream_reader_refines_gen. Qed.
+
+(* the two models agree on everything a client observes: from states standing at the same
+   position, read-until-n returns the same bytes and every in-range seek the same position *)
+Theorem C11_comp_stream_agrees_whole_block :
+  forall BLOCK LIMIT : N, 0 < BLOCK -> BLOCK < 2 ^ 32 ->
+  forall (dstate : Type) (dinit : dstate) (dstep : dstate -> bytes -> N -> dresult * N * bytes * dstate)
+         (D : bytes -> bytes) (fin : bytes -> bool),
+    DecoderLaws dinit dstep D fin -> NoNmiAtEnd dinit dstep fin ->
+  forall (S : Stream) (plain : bytes) (cbs : list (list N)),
+    (len cbs - 1) * BLOCK <= len plain <= len cbs * BLOCK ->
+    (forall (j : N) (cb : list N), nthN cbs j = Some cb -> fin cb = true /\ D cb = block_at BLOCK plain j) ->
+    12 + 4 * len cbs <= LIMIT /\ 12 + 4 * len cbs < 2 ^ 32 ->
+    len plain < 2 ^ 63 ->
+  forall Rin : st S -> N -> Prop,
+    Refines S (comp_wire cbs (len plain - (len cbs - 1) * BLOCK)) Rin ->
+  forall dec : bytes -> bytes,
+    (forall (j : N) (cb : list N), nthN cbs j = Some cb -> dec cb = block_at BLOCK plain j) ->
+  forall (s : sreader dstate S) (c : creader S) (p : N),
+    RcompS BLOCK dstate dinit dstep fin S plain cbs Rin s p -> Rcomp BLOCK S plain cbs Rin c p ->
+    (forall (n : N) (fuel : nat), (N.to_nat (N.min n (len plain - p)) < fuel)%nat ->
+       exists s' c',
+         read_full (CompReaderS BLOCK dstate dinit dstep S) fuel s n = (s', Ok (sliceN p n plain)) /\
+         read_full (CompReader BLOCK dec S) fuel c n = (c', Ok (sliceN p n plain)) /\
+         RcompS BLOCK dstate dinit dstep fin S plain cbs Rin s' (p + N.min n (len plain - p)) /\
+         Rcomp BLOCK S plain cbs Rin c' (p + N.min n (len plain - p))) /\
+    (forall (w : whence) (q : N), target (len plain) p w = Some q ->
+       exists s' c',
+         sk (CompReaderS BLOCK dstate dinit dstep S) s w = (s', Ok q) /\
+         sk (CompReader BLOCK dec S) c w = (c', Ok q) /\
+         RcompS BLOCK dstate dinit dstep fin S plain cbs Rin s' q /\ Rcomp BLOCK S plain cbs Rin c' q).
+Proof. exact comp_stream_agrees_whole_block. Qed.
+
+(* non-vacuity: the toy codec satisfies DecoderLaws and NoNmiAtEnd, and the theorem applies to a
+   concrete three-block wire on which the reader runs *)
+Example C11_comp_stream_hyps_satisfiable :
+  DecoderLaws tinit tstep tD tfin /\ NoNmiAtEnd tinit tstep tfin /\
+  Refines (CompReaderS 8 tstate tinit tstep (Cursor sx_wire)) sx_plain
+          (RcompS 8 tstate tinit tstep tfin (Cursor sx_wire) sx_plain sx_cbs (fun s p => s = p /\ p <= len sx_wire)).
+Proof. exact (conj toy_laws (conj toy_no_nmi_at_end comp_stream_refines_toy)). Qed.
+
+Print Assumptions C11_comp_stream_reader_refines.
+Print Assumptions C11_comp_stream_agrees_whole_block.
+Print Assumptions C11_comp_stream_hyps_satisfiable.
